@@ -50,6 +50,16 @@ func valToGo(v Val) any {
 		return string(v.X)
 	case "null":
 		return literal.Null()
+	case "list", "map":
+		if holdsNull(v) {
+			// a plain Go map / slice cannot hold a null for literal.Any (it refuses a nil element and
+			// a Node element alike): such a container is handed over as a Node, as a caller must
+			if n, err := ipld.Decode(valToCB(v).Encode(), dagcbor.Decode); err == nil {
+				return n
+			}
+		}
+	}
+	switch v.K {
 	case "list":
 		out := make([]any, len(v.L))
 		for i, e := range v.L {
@@ -64,6 +74,26 @@ func valToGo(v Val) any {
 		return out
 	}
 	return nil
+}
+
+func holdsNull(v Val) bool {
+	switch v.K {
+	case "null":
+		return true
+	case "list":
+		for _, e := range v.L {
+			if holdsNull(e) {
+				return true
+			}
+		}
+	case "map":
+		for _, e := range v.M {
+			if holdsNull(e.V) {
+				return true
+			}
+		}
+	}
+	return false
 }
 
 // valToCB is the harness's own canonical DAG-CBOR rendering of a Val.
